@@ -177,6 +177,27 @@ def gen_failover_destroy(rng, sid):
     return {"id": sid, "cluster": cluster, "ops": ops}
 
 
+def gen_join_destroy(rng, sid):
+    """Destroy through a cluster client that was created BEFORE a member joined: the new member holds fragments of the DMap
+    (handed over to it) and the client has never talked to it"""
+    d = "c19j%d" % sid
+    keys = [dmaplib.hx("%s-k%02d" % (d, i)) for i in range(40)]
+    n = rng.choice([1, 2])
+    ops = [{"op": "put", "c": "cc", "d": d, "k": keys[0], "v": dmaplib.hx("old")}]      # creates the cluster client
+    ops += [{"op": "put", "c": "emb%d" % rng.randrange(n), "d": d, "k": k, "v": dmaplib.hx("old")} for k in keys[1:]]
+    ops += [{"op": "join"}, {"op": "waitstable", "ms": 30000, "c": "keepcc"},
+            {"op": "hstate", "d": d},
+            {"op": "destroy", "c": "cc", "d": d},
+            {"op": "hstate", "d": d}]
+    for k in keys:
+        ops.append({"op": "get", "c": "emb%d" % rng.randrange(n + 1), "d": d, "k": k})
+    ops.append({"op": "scan", "c": "emb%d" % n, "d": d})
+    ops.append({"op": "put", "c": "emb0", "d": d, "k": keys[0], "v": dmaplib.hx("again")})
+    ops.append({"op": "get", "c": "emb%d" % n, "d": d, "k": keys[0]})
+    cluster = {"members": n, "replicas": rng.choice([1, 2]) if n > 1 else 1, "partitions": 7, "table": 4096, "evict_workers": 1}
+    return {"id": sid, "cluster": cluster, "ops": ops}
+
+
 def judge_failover_destroy(sc, obs):
     if len(obs) < len(sc["ops"]):
         return ("env", "scenario aborted")
@@ -213,6 +234,7 @@ def judge_failover_destroy(sc, obs):
 def failover_part(res):
     import memberlib
     scs = [gen_failover_destroy(vlib.rng_for(res.seed, PID, "failover", j), 50000 + j) for j in range(3 if res.tier == "quick" else 12)]
+    scs += [gen_join_destroy(vlib.rng_for(res.seed, PID, "joindestroy", j), 51000 + j) for j in range(2 if res.tier == "quick" else 8)]
     results = memberlib.run_membership(scs, jobs=4)
     bad = env = 0
     for sc in scs:
